@@ -91,6 +91,14 @@ def run_one(tape):
             'writes': [''.join(chr(97 + j % 26) for j in range(tape.pick([1, maxdata, 2 * maxdata + 1], 'pwlen')))
                        for _ in range(1 + tape.draw(2, 'npw'))], 'timeout_ms': 5000}
     scripts[poll['svc']] = []
+  # fault: a transfer that completes only as the reading call's deadline passes (lone reader only: a late
+  # transfer keeps the transport's reader lock, and other callers would time out legitimately)
+  late_plan = None
+  if (nstreams == 1 and poll is None and not plans[svcs[0]]['writes'] and plans[svcs[0]]['mode'] != 'streaming'
+      and svcs[0] not in refuse and tape.chance(300, 'late_transfer')):
+    late_plan = {}
+    for _ in range(1 + tape.draw(2, 'n_late')):
+      late_plan[tape.draw(len(scripts[svcs[0]]) + 2, 'late_call')] = tape.draw(2, 'late_hdr')
   knobs = core.Knobs(p_sync=tape.pick([0, 60, 200], 'p_sync'), gap_mean=tape.pick([0, 15, 40, 120], 'gap'),
                      hot_span=0, max_steps=1500000, max_time=400.0)
   viols = []
@@ -112,8 +120,11 @@ def run_one(tape):
           expect[svc] = n
       if poll:
         expect[poll['svc']] = sum((len(w) + maxdata - 1) // maxdata for w in poll['writes'])
+      if late_plan is not None:
+        plans[svcs[0]]['late'] = (tr, late_plan)
       dev = wadb.Device(sim, tape, tr, {'maxdata': maxdata, 'scripts': scripts, 'refuse': refuse,
-                                        'close_after': close_after, 'expect_host_writes': expect})
+                                        'close_after': close_after, 'expect_host_writes': expect,
+                                        'idle_rounds': 1500 if late_plan is not None else 400})
       dth = threading.Thread(target=wadb.device_thread, args=(dev, wadb.plain_handshake), name='device')
       dth.daemon = True
       dth.start()
@@ -180,6 +191,11 @@ def run_one(tape):
     viols.append({'clause': 'stuck_' + failed, 'details': {'info': (failed_info or '')[:300]}})
   elif dev is not None and failed is None:
     _oracle(dev, svcs, scripts, plans, refuse, close_after, out, maxdata, viols, probes, faults, sim)
+    if tr.late_fired:
+      faults['transfer_completes_at_deadline'] = tr.late_fired
+      probes['late_transfer'] = 1
+      if any(e[3] == 'late_timeout' for e in sim.log):
+        probes['late_transfer_timed_out_call'] = 1
     if poll and out.get(poll['svc']):
       for (what, tmo, dur, res) in out[poll['svc']]['calls']:
         if what == 'poll':
